@@ -593,7 +593,7 @@ fn lens_summing_to(rng: &mut Rng, target: usize, n: usize) -> Vec<usize> {
     out
 }
 
-fn main() {
+fn real_main() {
     let args = parse_args();
     let mut rep = Report::new(
         "C09",
@@ -828,4 +828,22 @@ fn main() {
         do_case_opt(&mut rep, &spec, id, sink, "random", send_model);
     }
     rep.write(&args);
+}
+
+/// Last panic message (the shared `catch` installs a silent hook; a panic of the HARNESS ITSELF
+/// - driver missing, I/O - would otherwise end the process without a word and `check` would only
+/// see "produced no result").
+static LAST_PANIC: std::sync::Mutex<String> = std::sync::Mutex::new(String::new());
+
+fn main() {
+    let _ = catch(|| ()); // let the shared helper install its hook first, then replace it
+    std::panic::set_hook(Box::new(|info| {
+        if let Ok(mut g) = LAST_PANIC.try_lock() {
+            *g = info.to_string();
+        }
+    }));
+    if std::panic::catch_unwind(real_main).is_err() {
+        eprintln!("harness internal panic (not a panic of the code under test): {}", LAST_PANIC.lock().map(|g| g.clone()).unwrap_or_default());
+        std::process::exit(3);
+    }
 }
